@@ -36,7 +36,7 @@ func main() {
 	}
 	selfTest()
 	if r.Fork(16) {
-		r.Set("rule", "pattern trees of the documented grammar enumerated by operator-node count over fixed atom/quantifier pools, plus every class/escape/bracket form in 6 contexts, every quantifier form on 8 bodies, and the 7 predefined patterns; a case is non-trivial if the product exploration visited > 1 state; distinct by canonical pattern text")
+		r.Set("rule", "pattern trees of the documented grammar enumerated by operator-node count over fixed atom/quantifier pools, plus every class/escape/bracket form in 6 contexts, every quantifier form on 8 bodies, every bracket group assembled from up to 3 (quick) / 4 (thorough) of 14 bracket tokens (plain characters, `-`, `^`, a lone backslash, escapes, a hexadecimal character, a class) whose derivations in the documented grammar all denote the same set, and the 7 predefined patterns; a case is non-trivial if the product exploration visited > 1 state; distinct by canonical pattern text")
 		r.Set("evaluations", r.Get("patterns"))
 		r.Set("traces_validated_against_impl", r.Get("patterns"))
 		r.Finish()
@@ -72,6 +72,15 @@ func main() {
 	mf, mr := rx.Space(r.Quick(), check)
 	r.Set("bound_tree_size_full_pools", mf)
 	r.Set("bound_tree_size_reduced_pools", mr)
+	// (b2) bracket groups assembled from every sequence of bracket tokens, where all derivations agree on the meaning
+	nb := 3
+	if !r.Quick() {
+		nb = 4
+	}
+	groups, amb := rx.BracketSpace(nb, func(a *regexref.Atom) { check(rx.AtomExpr(a), "bracket_contents") })
+	r.Set("bracket_groups_enumerated", groups)
+	r.Set("bracket_groups_with_derivations_that_disagree_not_judged", amb)
+	r.Set("bound_bracket_tokens", nb)
 	// (c) predefined patterns
 	for name, p := range parser.Predefs {
 		t, err := regexref.Parse(p)
